@@ -136,6 +136,11 @@ def correspondence(ctx):
                  "-> refused; ASCII upper / lower / mixed twins -> accepted. key-tables-sharing-id: one key id in two or three of keys / rootcas / "
                  "intermediatecas, the malformed entry (private part, scheme of another type, empty keyval, keyid field differing from the map key) "
                  "in each position -> refused, all well-formed -> accepted; in memory (40 calls) and after Dump + LoadMetadata (40 calls). "
+                 "wrapper-key-case: every wrapper key of both wrappers renamed by case only (Upper-first, ALL CAPS, lower, one inner letter, long s) "
+                 "-> refused by both loaders; two copies with other content (exact first / exact last): a legacy file loads the content of the "
+                 "exact-case member (in an envelope the parts also go through encoding/json's case-insensitive struct decoding, last one wins: "
+                 "model tie only). path-is-a-symlink: Dump to and both loaders from a symlink to a regular file, a chain of two, a relative "
+                 "symlink, a symlink into another directory, both wrappers -> round trip. "
                  "non-trivial = every case (each has a non-empty document or metadata); distinct = distinct input JSON")
     _fuzz(ctx, corr)
     return corr
